@@ -1,17 +1,56 @@
+"""C13 — symbol kernels are exact for every length, operand count and alignment."""
 from ofvlib.core import Job
 
 SYM = "src/lib_common/linear_binary_codes_utils/of_symbol.c"
 
 INFO = {
-    "explanation": "contracts of the seven symbol kernels enforced on the real functions",
-    "assumptions": [],
+    "explanation": "function contracts of the seven symbol kernels (value at every byte, operands unchanged, nothing read or "
+                   "written outside exact-size objects) enforced on the real functions. of_add_to_symbol: every size, loops closed "
+                   "by loop contracts. Multi-operand XOR kernels: one loop-free run per (operand count, size). GF kernels: one "
+                   "loop-free run per size, constant and contents symbolic.",
+    "assumptions": [
+        "no alignment model in CBMC: 'every buffer alignment' is one case; unaligned 64/32-bit accesses behave as byte accesses (true on x86-64)",
+        "GF kernels: 16 bytes of leading slack inside the dst/src objects because the kernels form a pointer before the buffer for sz < 15 (flat address space assumed); a read before the buffer is not detected, a write is",
+        "GF(2^8) kernels are specified relative to the multiplication table they index (of_gf_2_8_mul_table / of_gf_mul_table); C14 proves the tables equal the field product",
+        "of_addmul1 (legacy codec): table contents arbitrary (cbmc --nondet-static)",
+    ],
     "trusted": [],
 }
+
+KNAME = {1: "of_addmul1", 2: "of_galois_field_2_8_addmul1", 3: "of_galois_field_2_4_addmul1", 4: "of_galois_field_2_4_addmul1_compact"}
 
 
 def jobs(tier, seed):
     js = []
     js.append(Job("xor1.all_sizes", "xor_one_into_one", "c13_add_to_symbol.c", ["of_add_to_symbol"],
-                  repo_sources=[SYM], loops="of_add_to_symbol.json", timeout=900, mem_gb=8,
-                  status="proved", bound="symbol_size <= 2^24 (harness constant; loops closed by loop contracts, no unwinding)"))
+                  repo_sources=[SYM], loops="of_add_to_symbol.json", timeout=1500, mem_gb=8,
+                  status="proved", bound="symbol_size <= 2^24 (harness constant); loops closed by loop contracts, no unwinding"))
+    if tier == "quick":
+        sizes = list(range(0, 25)) + [31, 32, 33, 39, 40]
+        counts = list(range(0, 10)) + [12, 15, 16, 17, 20]
+        gsizes = list(range(0, 65))
+        g8sizes = list(range(0, 19)) + [31, 32, 33, 47, 48, 49, 63, 64]
+    else:
+        sizes = list(range(0, 41))
+        counts = list(range(0, 21))
+        gsizes = list(range(0, 161))
+        g8sizes = list(range(0, 161))
+    for h, f, g in (("c13_add_from_multiple.c", "of_add_from_multiple_symbols", "xor_many_into_one"),
+                    ("c13_add_to_multiple.c", "of_add_to_multiple_symbols", "xor_one_into_many")):
+        for s in sizes:
+            for c in counts:
+                js.append(Job("%s.size%d.count%d" % (g, s, c), g, h, [f], repo_sources=[SYM],
+                              defines={"OFV_SIZE": s, "OFV_COUNT": c}, unwind=max(s // 8, c, 4) + 2,
+                              timeout=300, mem_gb=3, status="bounded",
+                              bound="one run per (count,size): sizes %d..%d (%d values), counts %d..%d (%d values); contents and ghost byte symbolic"
+                                    % (sizes[0], sizes[-1], len(sizes), counts[0], counts[-1], len(counts))))
+    for k in (1, 2, 3, 4):
+        ss = g8sizes if k == 2 else gsizes
+        for s in ss:
+            extra = ["--nondet-static"] if k == 1 else []
+            js.append(Job("gf.%s.size%d" % (KNAME[k], s), "gf_addmul_" + KNAME[k], "c13_gf_addmul.c", [KNAME[k]],
+                          defines={"OFV_SIZE": s, "OFV_KERNEL": k}, unwind=max(20, s + 2),
+                          solver="z3" if k in (1, 2) else "cadical", extra_cbmc=extra, timeout=600, mem_gb=4, status="bounded",
+                          bound="one run per size: %d..%d (%d values); field constant, all contents symbolic, every byte checked"
+                                % (ss[0], ss[-1], len(ss))))
     return js
